@@ -118,6 +118,11 @@ def run(pid):
             per_target[tk]["fail"] += 1
             clauses[f"{tk}:{v[1]}"] = clauses.get(f"{tk}:{v[1]}", 0) + 1
             trig = [f"{c['target']}:{v[1]}"]
+            if c["target"].startswith("qasm") and v[1] == "gate-differs" and any(g["k"] == "MCP" for g in c["gates"]):
+                # explained only if, apart from the phases of the cp gates, the export is gate-for-gate the circuit
+                strip = lambda gs: [(g["k"], g["w"], 0 if g["k"] == "MCP" else g["m"]) for g in gs if g["k"] != "BAR"]
+                if strip(c["gates"]) == strip(c["neutral"]):
+                    trig.append("qasm:gate-differs:cp-phase")
             if c["has_barrier"]:
                 trig.append(f"{c['target']}:{v[1]}:barrier")
             if c["aliased"]:
